@@ -816,14 +816,14 @@ def rule_R3(ed, src, parts, pattern):
     ed.replace(src.toks[a].start, src.toks[b - 1].end, "", "R3", "nested item `%s` hoisted to module level" % pattern)
 
 
-def rule_R4(ed, src, parts):
+def rule_R4(ed, src, parts, inv_text="", body_text="", after_text=""):
     toks = src.toks
     bo, bc = parts["body"]
     sig = [toks[k].text for k in sig_indices(toks, bo + 1, bc)]
     if sig != ["self", ".", "last", "(", ")", ";"]:
         raise ExtractError("R4: body is not `self.last();` (%s:%d)" % (src.rel, src.line_of(toks[bo].start)))
     ks = sig_indices(toks, bo + 1, bc)
-    ed.replace(toks[ks[0]].start, toks[ks[-1]].end, "loop { if self.next().is_none() { break; } }", "R4", "Iterator::last() == drain with next()")
+    ed.replace(toks[ks[0]].start, toks[ks[-1]].end, "loop\n%s\n{ %s if self.next().is_none() { break; } }\n%s" % (inv_text, body_text, after_text), "R4", "Iterator::last() == drain with next() (loop contract inserted as annotation)")
 
 
 def rule_R5(ed, src, parts, ordinal):
@@ -1321,8 +1321,17 @@ class Unit:
                     rule_R2(ed, src, parts, args[1], int(args[2]) if len(args) > 2 else 1)
                 elif r == "R3":
                     rule_R3(ed, src, parts, " ".join(args[1:]))
+                elif r == "R3?":
+                    # same, for a `use` line that may or may not be there
+                    try:
+                        rule_R3(ed, src, parts, " ".join(args[1:]))
+                    except ExtractError:
+                        pass
                 elif r == "R4":
-                    rule_R4(ed, src, parts)
+                    inv = "\n".join("\n".join(t) for (n2, _a2, t) in blk.subs if n2 == "r4inv")
+                    body = "\n".join("\n".join(t) for (n2, _a2, t) in blk.subs if n2 == "r4body")
+                    after = "\n".join("\n".join(t) for (n2, _a2, t) in blk.subs if n2 == "r4after")
+                    rule_R4(ed, src, parts, inv, body, after)
                 elif r == "R5":
                     rule_R5(ed, src, parts, int(args[1]) if len(args) > 1 else 1)
                 elif r == "R9":
@@ -1334,7 +1343,7 @@ class Unit:
                 if not m:
                     raise ExtractError("%s: bad //@closure argument" % label)
                 rule_R7(ed, src, parts, int(m.group(1)), m.group(2), text)
-            elif name in ("subst", "nospinoff"):
+            elif name in ("subst", "nospinoff", "r4inv", "r4body", "r4after"):
                 pass
             elif name == "pubfields":
                 rule_R8(ed, src, a, b)
